@@ -106,12 +106,19 @@ impl EvalOut {
             && self.eco.is_empty()
     }
     fn v(&mut self, prop: &'static str, clause: impl Into<String>, detail: impl Into<String>) {
-        self.violations.push(Violation {
+        let v = Violation {
             prop,
             clause: clause.into(),
             detail: detail.into(),
-        });
+        };
+        // what the monitors saw must survive a later panic of the engine (the EvalOut is lost then)
+        SEEN_BEFORE_PANIC.with(|p| p.borrow_mut().push(v.clone()));
+        self.violations.push(v);
     }
+}
+
+thread_local! {
+    static SEEN_BEFORE_PANIC: std::cell::RefCell<Vec<Violation>> = std::cell::RefCell::new(Vec::new());
 }
 
 fn is_fin(s: &str) -> bool {
@@ -1035,6 +1042,7 @@ pub fn install_panic_hook() {
 /// itself (not under /repo) is re-raised.
 pub fn safe_eval(w: &mut World, plan: &Plan, sched: &Sched, opts: &Opts) -> EvalOut {
     let mut w2 = w.clone();
+    SEEN_BEFORE_PANIC.with(|p| p.borrow_mut().clear());
     let r = std::panic::catch_unwind(std::panic::AssertUnwindSafe(|| {
         let out = run_eval(&mut w2, plan, sched, opts);
         (w2, out)
@@ -1052,6 +1060,7 @@ pub fn safe_eval(w: &mut World, plan: &Plan, sched: &Sched, opts: &Opts) -> Eval
                 std::panic::resume_unwind(e);
             }
             let mut out = EvalOut::default();
+            out.violations = SEEN_BEFORE_PANIC.with(|p| std::mem::take(&mut *p.borrow_mut()));
             let stem: String = msg.split('@').next().unwrap_or("").chars().take(50).collect();
             out.engine_error = Some(format!("panic {}", msg));
             let phase = PHASE.with(|p| p.get());
